@@ -207,6 +207,41 @@ def inject_round(rep, r, tier):
         shutil.rmtree(tmp, ignore_errors=True)
 
 
+def load_round(rep, r, tier):
+    """JSON load is a constructor too: whatever `from_json` (and `NiftiWrapper` on an image carrying the text) returns must
+    meet the format rules — so content that breaks them must be refused.  The rules are decided by the independent checker
+    of the C10 check, on single corruptions of valid content (duplicated keys in every pair of classifications, wrong counts,
+    dropped dictionaries, bad shapes / slice dimensions)."""
+    import json, copy
+    from . import check_c10 as C10
+    from dcmstack.dcmmeta import DcmMetaExtension
+    nbase = 12 if tier == 'quick' else 150
+    for bi in range(nbase):
+        base = C10.base_content(r, tier)
+        cors = C10.corruptions(r, base)
+        dups = [x for x in cors if x[0].startswith('dup:')]
+        rest = [x for x in cors if not x[0].startswith('dup:')]
+        picks = r.sample(dups, min(len(dups), 25)) + r.sample(rest, min(len(rest), 15))
+        for name, f in picks:
+            c = copy.deepcopy(base)
+            try:
+                f(c)
+            except Exception:
+                continue
+            rep.evaluations += 1
+            rep.count('load/' + name.split(':')[0])
+            try:
+                ext = DcmMetaExtension.from_json(json.dumps(c))
+            except Exception:
+                continue
+            got = json.loads(ext.to_json())
+            ok, why = C10.rules(got)
+            rep.nontriv(['load', base.get('dcmmeta_shape'), name])
+            if not ok:
+                rep.failure('from_json returned an extension that breaks the format rules (%s) for content corrupted by %s' % (why, name),
+                            {'tag': 'check_valid:accepted-invalid:%s' % why, 'suite': 'load', 'corruption': name, 'content': c})
+
+
 def main(pid, tier):
     rep = core.Report(pid, tier)
     rep.disagreements = []
@@ -223,6 +258,7 @@ def main(pid, tier):
     CW.extend(rep, pid, tier, r)
     chain_round(rep, r, tier)
     inject_round(rep, r, tier)
+    load_round(rep, r, tier)
     try:
         from . import check_stack
         check_stack.extend_c07(rep, tier, r)
